@@ -7,6 +7,7 @@
 package parsley
 
 import (
+	"errors"
 	"fmt"
 
 	"github.com/opsidian/parsley/data"
@@ -27,6 +28,15 @@ func Parse(ctx *Context, p Parser) (Node, error) {
 		}
 
 		return nil, fmt.Errorf("failed to parse the input: %w", ctx.FileSet().ErrorWithPosition(err))
+	}
+
+	if node == nil {
+		// a parser may return neither a result nor an error (e.g. a curtailed left recursion without
+		// a base case, or SuppressError): report the furthest recorded error, if any
+		if ctxErr := ctx.Error(); ctxErr != nil {
+			return nil, fmt.Errorf("failed to parse the input: %w", ctx.FileSet().ErrorWithPosition(ctxErr))
+		}
+		return nil, errors.New("failed to parse the input")
 	}
 
 	if ctx.TransformationEnabled() {
